@@ -1,6 +1,7 @@
 package main
 
 import (
+	"fmt"
 	"regexp"
 
 	"github.com/yuin/goldmark/ast"
@@ -38,9 +39,15 @@ var siteNames = []string{"start", "sink", "bufw", "ctx.get", "ctx.set", "ctx.com
 	"renderer.init.enter", "renderer.init.begin", "renderer.init.end", "renderer.init.done",
 	"entities.init.enter", "entities.init.begin", "entities.init.end", "entities.init.done"}
 
+// sites >= siteDeepBase are scheduling points inserted into a copy of goldmark by ./instr
+const siteDeepBase uint16 = 1000
+
 func siteName(s uint16) string {
 	if int(s) < len(siteNames) {
 		return siteNames[s]
+	}
+	if s >= siteDeepBase {
+		return fmt.Sprintf("deep#%d", s-siteDeepBase)
 	}
 	return "?"
 }
@@ -54,7 +61,7 @@ func hookSiteID(name string) (uint16, bool) {
 	return 0, false
 }
 
-func isHookSite(s uint16) bool  { return s >= siteHookBase }
+func isHookSite(s uint16) bool  { return s >= siteHookBase && s < siteDeepBase }
 func hookPhase(s uint16) int    { return int(s-siteHookBase) % 4 } // 0 enter 1 begin 2 end 3 done
 func hookOnceIdx(s uint16) int  { return int(s-siteHookBase) / 4 }
 func isInitEnter(s uint16) bool { return isHookSite(s) && hookPhase(s) == 0 }
@@ -97,12 +104,18 @@ func (c *simCtx) IDs() parser.IDs {
 	c.y.yield(siteCtxIDs)
 	return &simIDs{c.c.IDs(), c.y}
 }
-func (c *simCtx) BlockOffset() int                { c.y.yield(siteCtxBlock); return c.c.BlockOffset() }
-func (c *simCtx) SetBlockOffset(v int)            { c.y.yield(siteCtxBlock); c.c.SetBlockOffset(v) }
-func (c *simCtx) BlockIndent() int                { c.y.yield(siteCtxBlock); return c.c.BlockIndent() }
-func (c *simCtx) SetBlockIndent(v int)            { c.y.yield(siteCtxBlock); c.c.SetBlockIndent(v) }
-func (c *simCtx) FirstDelimiter() *parser.Delimiter { c.y.yield(siteCtxDelim); return c.c.FirstDelimiter() }
-func (c *simCtx) LastDelimiter() *parser.Delimiter  { c.y.yield(siteCtxDelim); return c.c.LastDelimiter() }
+func (c *simCtx) BlockOffset() int     { c.y.yield(siteCtxBlock); return c.c.BlockOffset() }
+func (c *simCtx) SetBlockOffset(v int) { c.y.yield(siteCtxBlock); c.c.SetBlockOffset(v) }
+func (c *simCtx) BlockIndent() int     { c.y.yield(siteCtxBlock); return c.c.BlockIndent() }
+func (c *simCtx) SetBlockIndent(v int) { c.y.yield(siteCtxBlock); c.c.SetBlockIndent(v) }
+func (c *simCtx) FirstDelimiter() *parser.Delimiter {
+	c.y.yield(siteCtxDelim)
+	return c.c.FirstDelimiter()
+}
+func (c *simCtx) LastDelimiter() *parser.Delimiter {
+	c.y.yield(siteCtxDelim)
+	return c.c.LastDelimiter()
+}
 func (c *simCtx) PushDelimiter(d *parser.Delimiter) { c.y.yield(siteCtxDelim); c.c.PushDelimiter(d) }
 func (c *simCtx) RemoveDelimiter(d *parser.Delimiter) {
 	c.y.yield(siteCtxDelim)
@@ -111,16 +124,22 @@ func (c *simCtx) RemoveDelimiter(d *parser.Delimiter) {
 func (c *simCtx) ClearDelimiters(b ast.Node)       { c.y.yield(siteCtxDelim); c.c.ClearDelimiters(b) }
 func (c *simCtx) OpenedBlocks() []parser.Block     { c.y.yield(siteCtxOpened); return c.c.OpenedBlocks() }
 func (c *simCtx) SetOpenedBlocks(v []parser.Block) { c.y.yield(siteCtxOpened); c.c.SetOpenedBlocks(v) }
-func (c *simCtx) LastOpenedBlock() parser.Block    { c.y.yield(siteCtxOpened); return c.c.LastOpenedBlock() }
-func (c *simCtx) IsInLinkLabel() bool              { c.y.yield(siteCtxOther); return c.c.IsInLinkLabel() }
+func (c *simCtx) LastOpenedBlock() parser.Block {
+	c.y.yield(siteCtxOpened)
+	return c.c.LastOpenedBlock()
+}
+func (c *simCtx) IsInLinkLabel() bool { c.y.yield(siteCtxOther); return c.c.IsInLinkLabel() }
 
 type simIDs struct {
 	i parser.IDs
 	y *yielder
 }
 
-func (s *simIDs) Generate(v []byte, k ast.NodeKind) []byte { s.y.yield(siteIDsGen); return s.i.Generate(v, k) }
-func (s *simIDs) Put(v []byte)                             { s.y.yield(siteIDsPut); s.i.Put(v) }
+func (s *simIDs) Generate(v []byte, k ast.NodeKind) []byte {
+	s.y.yield(siteIDsGen)
+	return s.i.Generate(v, k)
+}
+func (s *simIDs) Put(v []byte) { s.y.yield(siteIDsPut); s.i.Put(v) }
 
 // ---- text.Reader seam (block phase of Parser.Parse) ------------------------------------
 
@@ -131,20 +150,26 @@ type simReader struct {
 
 var _ text.Reader = (*simReader)(nil)
 
-func (r *simReader) ReadRune() (rune, int, error)        { r.y.yield(siteRdOther); return r.r.ReadRune() }
-func (r *simReader) Source() []byte                      { return r.r.Source() }
-func (r *simReader) ResetPosition()                      { r.y.yield(siteRdOther); r.r.ResetPosition() }
-func (r *simReader) Peek() byte                          { r.y.yield(siteRdPeek); return r.r.Peek() }
-func (r *simReader) PeekLine() ([]byte, text.Segment)    { r.y.yield(siteRdPeek); return r.r.PeekLine() }
-func (r *simReader) PrecendingCharacter() rune           { r.y.yield(siteRdOther); return r.r.PrecendingCharacter() }
-func (r *simReader) Value(s text.Segment) []byte         { return r.r.Value(s) }
-func (r *simReader) LineOffset() int                     { r.y.yield(siteRdOther); return r.r.LineOffset() }
-func (r *simReader) Position() (int, text.Segment)       { r.y.yield(siteRdOther); return r.r.Position() }
-func (r *simReader) SetPosition(l int, s text.Segment)   { r.y.yield(siteRdOther); r.r.SetPosition(l, s) }
-func (r *simReader) SetPadding(n int)                    { r.y.yield(siteRdOther); r.r.SetPadding(n) }
-func (r *simReader) Advance(n int)                       { r.y.yield(siteRdAdvance); r.r.Advance(n) }
-func (r *simReader) AdvanceAndSetPadding(n, p int)       { r.y.yield(siteRdAdvance); r.r.AdvanceAndSetPadding(n, p) }
-func (r *simReader) AdvanceLine()                        { r.y.yield(siteRdAdvance); r.r.AdvanceLine() }
+func (r *simReader) ReadRune() (rune, int, error)     { r.y.yield(siteRdOther); return r.r.ReadRune() }
+func (r *simReader) Source() []byte                   { return r.r.Source() }
+func (r *simReader) ResetPosition()                   { r.y.yield(siteRdOther); r.r.ResetPosition() }
+func (r *simReader) Peek() byte                       { r.y.yield(siteRdPeek); return r.r.Peek() }
+func (r *simReader) PeekLine() ([]byte, text.Segment) { r.y.yield(siteRdPeek); return r.r.PeekLine() }
+func (r *simReader) PrecendingCharacter() rune {
+	r.y.yield(siteRdOther)
+	return r.r.PrecendingCharacter()
+}
+func (r *simReader) Value(s text.Segment) []byte       { return r.r.Value(s) }
+func (r *simReader) LineOffset() int                   { r.y.yield(siteRdOther); return r.r.LineOffset() }
+func (r *simReader) Position() (int, text.Segment)     { r.y.yield(siteRdOther); return r.r.Position() }
+func (r *simReader) SetPosition(l int, s text.Segment) { r.y.yield(siteRdOther); r.r.SetPosition(l, s) }
+func (r *simReader) SetPadding(n int)                  { r.y.yield(siteRdOther); r.r.SetPadding(n) }
+func (r *simReader) Advance(n int)                     { r.y.yield(siteRdAdvance); r.r.Advance(n) }
+func (r *simReader) AdvanceAndSetPadding(n, p int) {
+	r.y.yield(siteRdAdvance)
+	r.r.AdvanceAndSetPadding(n, p)
+}
+func (r *simReader) AdvanceLine() { r.y.yield(siteRdAdvance); r.r.AdvanceLine() }
 func (r *simReader) SkipSpaces() (text.Segment, int, bool) {
 	r.y.yield(siteRdOther)
 	return r.r.SkipSpaces()
